@@ -15,7 +15,7 @@ Inductive case :=
        (ak : option ack)               (* None: no acknowledgement seen *)
        (replies : list Z)              (* heights answered in phase one, in order *)
        (trace : list obs)              (* initial burst sorted by height, then controller order *)
-       (finished : bool)               (* the handler returned within the budget *)
+       (finished : bool)               (* the handler returned within the budget (every task terminates) *)
        (odd : bool)                    (* the controller saw something it has no place for *)
 (** the per-peer limit: one healthy peer, more heights than its limit.  Observed:
     how many requests the peer holds when every goroutine either waits for an
@@ -53,21 +53,16 @@ Definition ack_eqb (a b : ack) : bool :=
 Definition bind {A B} (o : option A) (f : A -> option B) : option B :=
   match o with Some x => f x | None => None end.
 
-(** the initial burst: every goroutine sorts and picks.  Before the first
-    Remove all views are equal, so the order inside the burst is immaterial
-    (below the per-peer limit, which needs more than 20 heights). *)
+(** the initial burst: every goroutine sorts and picks.  The goroutines share
+    only the sorted array and the TaskNum counters, so the order inside the
+    burst is immaterial (below the per-peer limit, which needs more than 20
+    heights). *)
 Definition burst (n : nat) : list event := flat_map (fun g => [Sort g; Pick g]) (seq 0 n).
 
-(** the controller answers the held request of goroutine g and waits for what
-    that goroutine does next *)
-Definition waiting_forever (c : config) (ts : list task) (G : gstate) : bool :=
-  match g_pc G with
-  | PReq t => is_stall (c_beh c (task_peer ts t) (g_h G))
-  | _ => false
-  end.
-
+(** the controller answers the held request of goroutine g (or the request
+    runs into the downloader's stream deadline) and waits for what that
+    goroutine does next *)
 Definition after_reply (c : config) (ts : list task) (s : state) (g : nat) : option state :=
-  if waiting_forever c ts (nth g (s_gs s) dummy_g) then Some s (* nothing is sent; the goroutine stays blocked *) else
   bind (step c ts s (Result g)) (fun s1 =>
   bind (step c ts s1 (Release g)) (fun s2 =>
   match g_pc (nth g (s_gs s2) dummy_g) with
@@ -142,40 +137,28 @@ Fixpoint nodupZ (l : list Z) : bool :=
 Definition permZ (a b : list Z) : bool :=
   nodupZ a && (length a =? length b)%nat && forallb (fun x => memZ x b) a.
 
-(** phase two in the observed order; a re-download that waits for a silent peer
-    never returns, so nothing follows it.  Result: (log, returned) *)
-Fixpoint phase_two (c : config) (order : list Z) : option (list obs * bool) :=
+(** phase two in the observed order; every re-download returns *)
+Fixpoint phase_two (c : config) (order : list Z) : option (list obs) :=
   match order with
-  | [] => Some ([], true)
+  | [] => Some []
   | h :: tl =>
-      if all_done (recheck c h) then
-        bind (phase_two c tl) (fun r => Some (recheck_log c h ++ fst r, snd r))
-      else match tl with [] => Some (recheck_log c h, false) | _ => None end
+      if all_done (recheck c h) then bind (phase_two c tl) (fun r => Some (recheck_log c h ++ r))
+      else None
   end.
 
-Definition subsetZ (a b : list Z) : bool := nodupZ a && forallb (fun x => memZ x b) a.
-
-(** the model's trace for this case: (log, handler returned) *)
-Definition model_trace (c : config) (replies : list Z) (trace : list obs) : option (list obs * bool) :=
+(** the model's trace for this case (the handler always returns) *)
+Definition model_trace (c : config) (replies : list Z) (trace : list obs) : option (list obs) :=
   let ts := init_job c in
   let n := length (heights c) in
   bind (exec_strict c ts (init_state ts (heights c)) (burst n)) (fun s0 =>
   bind (replay c ts s0 replies) (fun s1 =>
   let s2 := finish_sleepers c ts s1 in
-  if negb (all_done s2) then
-    (* only goroutines that wait for a silent peer may be left *)
-    if forallb (fun G => is_done G || waiting_forever c ts G) (s_gs s2)
-    then Some (rev (s_log s2), false) else None
+  if negb (all_done s2) then None
   else
     let failed := failed_heights s2 in
     let order := derive_order failed trace (match ts with [] => true | _ => false end) in
-    if negb (subsetZ order failed) then None
-    else bind (phase_two c order) (fun r =>
-         if snd r && negb (permZ order failed) then None
-         else Some (rev (s_log s2) ++ fst r, snd r)))).
-
-Definition asked_silent (c : config) (tr : list obs) : bool :=
-  existsb (fun o => match o with OReq h p => is_stall (c_beh c p h) | _ => false end) tr.
+    if negb (permZ order failed) then None
+    else bind (phase_two c order) (fun r => Some (rev (s_log s2) ++ r)))).
 
 Definition count_asking (s : state) : Z :=
   Z.of_nat (length (filter (fun G => match g_pc G with PReq _ => true | _ => false end) (s_gs s))).
@@ -205,17 +188,17 @@ Definition check_case (cs : case) : verdict :=
       let m_trace :=
         match handler_ack c with
         | AckOk => model_trace c replies trace
-        | _ => match replies with [] => Some ([], true) | _ => None end
+        | _ => match replies with [] => Some [] | _ => None end
         end in
-      let m := ack_ok && negb odd
+      let m := ack_ok && negb odd && finished
                && match m_trace with
-                  | Some (l, fin) => list_eqb obs_eqb l trace && Bool.eqb fin finished
+                  | Some l => list_eqb obs_eqb l trace
                   | None => false
                   end in
       let s := finished && spec_all c trace in
       (m, s, if s then 0%N
              else if finished then first_divergence c trace
-             else if asked_silent c trace then 4%N else 8%N)
+             else 8%N)
   end.
 
 (** compact constructors for the wire format *)
